@@ -14,6 +14,7 @@ from functools import partial, wraps
 from inspect import Parameter, isclass, isfunction, isgeneratorfunction
 from io import BufferedIOBase, IOBase, RawIOBase, TextIOBase
 from traceback import extract_stack, print_stack
+import types
 from types import CodeType, FunctionType
 from typing import (
     IO, TYPE_CHECKING, AbstractSet, Any, AsyncIterable, AsyncIterator, BinaryIO, Callable, Dict,
@@ -22,6 +23,8 @@ from typing import (
 from unittest.mock import Mock
 from warnings import warn
 from weakref import WeakKeyDictionary, WeakValueDictionary
+
+_UnionType = getattr(types, "UnionType", None)  # PEP 604 unions, Python 3.10+
 
 # Python 3.8+
 try:
@@ -786,6 +789,9 @@ def check_type(argname: str, value, expected_type, memo: Optional[_TypeCheckMemo
                 raise TypeError(
                     'type of {} must be {}; got {} instead'.
                     format(argname, qualified_name(expected_type), qualified_name(value)))
+    elif _UnionType is not None and isinstance(expected_type, _UnionType):
+        # PEP 604 unions (`int | str`) on Python 3.10+: not a class, and no `__origin__`
+        check_union(argname, value, expected_type, memo)
     elif isinstance(expected_type, TypeVar):
         # Only happens on < 3.6
         check_typevar(argname, value, expected_type, memo)
